@@ -297,6 +297,30 @@ impl NoGoodStore {
     }
 }
 
+/// Public view on the result of the crate-private conclusion closure (feature `verif_hooks` only).
+#[cfg(feature = "verif_hooks")]
+#[derive(Debug, Clone, PartialEq, Eq)]
+pub enum VerifClosure {
+    /// The closure has extended the interpretation.
+    Update(Vec<Term>),
+    /// Nothing could be concluded.
+    NoUpdate,
+    /// The closure is inconsistent.
+    Inconsistent,
+}
+
+#[cfg(feature = "verif_hooks")]
+impl NoGoodStore {
+    /// Read-only wrapper around the crate-private conclusion closure for external monitors.
+    pub fn verif_conclusion_closure(&self, interpretation: &[Term]) -> VerifClosure {
+        match self.conclusion_closure(interpretation) {
+            ClosureResult::Update(val) => VerifClosure::Update(val),
+            ClosureResult::NoUpdate => VerifClosure::NoUpdate,
+            ClosureResult::Inconsistent => VerifClosure::Inconsistent,
+        }
+    }
+}
+
 /// Allows to define how costly the DuplicateElemination is done.
 #[derive(Debug, Copy, Clone)]
 pub enum DuplicateElemination {
